@@ -422,7 +422,8 @@ def run(rep: Report) -> None:
                     n4 += 1
                     rep.fail("R08.4", f"{f}:for {ast.unparse(it)[:30]}", f"{f} iterates over a set ({ast.unparse(it)[:40]}): order "
                              "depends on object addresses, so the chosen path may differ between processes", fi.where(n))
-            if isinstance(n, ast.Call) and isinstance(n.func, ast.Name) and n.func.id == "id" and f != "Unit._build_key":
+            if isinstance(n, ast.Call) and isinstance(n.func, ast.Name) and n.func.id == "id" and f != "Unit._build_key" \
+                    and not f.startswith("Unit._build_key.<locals>."):   # the sort key of the intern key, as a lambda or a local def (refAQ24)
                 n4 += 1
                 rep.fail("R08.4", f"{f}:id()", f"{f} uses id(): address-dependent behaviour on the conversion path", fi.where(n))
     if n4 == 0:
